@@ -700,7 +700,8 @@ Record SI (s : cl) : Prop := {
   si_sig : closing s = true -> stopSig s = true;
   si_sig2 : stopSig s = true -> closing s = true \/ started s = false;
   si_own : Forall own (tr s);
-  si_j5 : wrs (tr s) = conc (tr s) ++ pendl s }.
+  si_j5 : wrs (tr s) = conc (tr s) ++ pendl s;
+  si_cb1 : stopSig s = true -> cbq s = [] }.
 
 Lemma SI_init c t : SI (init c t).
 Proof.
@@ -722,7 +723,7 @@ Lemma step_SI_ext1 l s : wf_lab l -> G1 s -> G2 s -> SI s -> ok_at l s = true ->
   match l with Send _ _ | Expire | Tick _ | NetFail _ | Stop | Start | Drop | Reconn => SI (step l s) | _ => True end.
 Proof.
   intros Hw [J1' Jp J4'] [Jc Jcl Js] S Hok.
-  pose proof S as [Sa Sb Sc Sd Se Sf Sg Sh Si Sj Sk].
+  pose proof S as [Sa Sb Sc Sd Se Sf Sg Sh Si Sj Sk Sl].
   unfold ok_at in Hok. apply andb_true_iff in Hok as [HT Hok]. apply Z.leb_le in HT.
   destruct l; try exact I; cbn [is_ext] in Hok;
     apply andb_true_iff in Hok as [Hok Hcc]; apply andb_true_iff in Hok as [Hcl Hsg];
@@ -744,7 +745,7 @@ Proof.
     cbn [step]. set (s1 := set_now s _).
     assert (S1 : SI s1) by (constructor; subst s1; cbn; rewrite ?Ecc; fin; closer Sf).
     destruct (tmo s1) eqn:Et; try exact S1. destruct (deadline <=? now s1); [|exact S1].
-    destruct S1 as [Sa' Sb' Sc' Sd' Se' Sf' Sg' Sh' Si' Sj' Sk']. constructor; cbn; fin.
+    destruct S1 as [Sa' Sb' Sc' Sd' Se' Sf' Sg' Sh' Si' Sj' Sk' Sl']. constructor; cbn; fin.
   - (* Drop *)
     cbn [step]. destruct (conn s) eqn:Ec; [|exact S]. cbv zeta.
     change (started (emit (set_conn s false) EDrop)) with (started s). rewrite (Jc Ec).
@@ -788,7 +789,7 @@ Proof. unfold pendl. intros H. apply Z.eqb_neq in H. rewrite H. reflexivity. Qed
 Lemma SI_pump_tail s : SI s -> G1 s -> started s = true -> readyC s = 0 -> SI (pump_tail s).
 Proof.
   intros S [J1' Jp J4'] Est Hr0.
-  pose proof S as [Sa Sb Sc Sd Se Sf Sg Sh Si Sj Sk].
+  pose proof S as [Sa Sb Sc Sd Se Sf Sg Sh Si Sj Sk Sl].
   destruct (paused s) eqn:Ep; [rewrite pump_tail_idle by auto; exact S|].
   destruct (rdy s) eqn:Er; [|rewrite pump_tail_idle by auto; exact S].
   destruct (q s) as [|h t] eqn:Eq; [rewrite pump_tail_idle by auto; exact S|].
@@ -820,7 +821,7 @@ Lemma step_SI_int l s : wf_lab l -> G1 s -> G2 s -> SI s -> ok_at l s = true ->
 Proof.
   intros Hw G1s [Jc Jcl Js] S Hok. pose proof G1s as [J1' Jp J4'].
   assert (HDC : forall r, l = DirectComplete r -> False) by (intros r ->; exact Hw).
-  pose proof S as [Sa Sb Sc Sd Se Sf Sg Sh Si Sj Sk].
+  pose proof S as [Sa Sb Sc Sd Se Sf Sg Sh Si Sj Sk Sl].
   unfold ok_at in Hok. apply andb_true_iff in Hok as [HT Hok]. apply Z.leb_le in HT.
   destruct (T_facts s S HT) as (TF1 & TF2 & TF3).
   destruct l; try exact I; try (exfalso; eapply HDC; reflexivity); cbn [is_ext] in Hok.
